@@ -47,7 +47,9 @@ class Collect(ast.NodeVisitor):
         self.func = []
 
     def generic_visit(self, node):
-        node._mid = self.idx
+        # operator / context nodes are process-wide singletons in CPython's ast: never annotate them
+        if not isinstance(node, (ast.operator, ast.cmpop, ast.unaryop, ast.boolop, ast.expr_context)):
+            node._mid = self.idx
         self.idx += 1
         skip = False
         is_func = isinstance(node, ast.FunctionDef)
@@ -99,14 +101,23 @@ def mutants_of(relpath):
     return c.sites, src
 
 
+import threading
+_GEN_LOCK = threading.Lock()
+
+
 def make_mutant(src, kind, mid):
+    with _GEN_LOCK:
+        return _make_mutant(src, kind, mid)
+
+
+def _make_mutant(src, kind, mid):
     """re-parse, number the nodes exactly as Collect did, and rewrite the node with the given number"""
     tree = ast.parse(src)
     c = Collect()
     c.visit(tree)
     target = None
     for node in ast.walk(tree):
-        if getattr(node, '_mid', None) == mid:
+        if not isinstance(node, (ast.operator, ast.cmpop, ast.unaryop, ast.boolop, ast.expr_context)) and getattr(node, '_mid', None) == mid:
             target = node
             break
     if target is None:
@@ -220,6 +231,7 @@ def main():
     ap.add_argument('--out', default=None)
     ap.add_argument('--seed', type=int, default=1)
     ap.add_argument('--kinds', default=None)
+    ap.add_argument('--rerun', default=None, help='only the mutants that survived (or hung) in this earlier report')
     a = ap.parse_args()
     files = a.files.split(',') if a.files else sorted(PROPS)
     jobs = []
@@ -231,6 +243,9 @@ def main():
             if a.kinds and kind not in a.kinds.split(','):
                 continue
             jobs.append((f, kind, mid, lineno, a.seed))
+    if a.rerun:
+        keep = {(r['file'], r['kind'], r['mid']) for r in json.load(open(a.rerun))['results'] if r['status'] not in ('killed', 'does-not-compile', 'does-not-import')}
+        jobs = [j for j in jobs if (j[0], j[1], j[2]) in keep]
     if a.limit:
         jobs = jobs[:a.limit]
     sys.stderr.write('%d mutants\n' % len(jobs))
